@@ -89,8 +89,8 @@ Print Assumptions c07_overlap_never.
 (* non-vacuity: coroutine 0 owns the mutex, coroutine 1 has published and its thread is still inside
    await_suspend, plain thread 2 has published too *)
 Example c07_nonvacuous :
-  let ops := [[1;0;0;0]; [1;0;0;2]; [1;1;0;1]; [9; 0;0;1;1;1;2;2;2]]%Z in
-  let s := fst (run_sched 8 (init ops) (flat_map decode_sched ops) []) in
+  let ops := [[1;0;0;0]; [1;0;0;2]; [1;1;0;1]; [9; 0;0;1;1;1;1;2;2;2;2]]%Z in
+  let s := fst (run_sched 10 (init ops) (flat_map decode_sched ops) []) in
   reachable ops s /\ holds s 0 /\ waiting s 1 /\ waiting s 2 /\ run (gthr s 1) = TSusp 1%nat /\
   requests s = PNode 2 /\ alog s = [1; 2]%nat /\ glog s = [].
 Proof.
